@@ -43,6 +43,7 @@ type algStats struct {
 	C07Schedules, C07Races, C11Scenarios                                                         int
 	CraftedBatches, PartialsChecked, FaultySignerBatches, AwayProposerBatches, SlowReaderBatches int
 	C11Refed, C02StorageFaults                                                                   int
+	SignerErrorBatches, LateReaderBatches                                                        int
 	C07Exhaustive                                                                                string
 	Configs                                                                                      []string
 	OutcomeHist                                                                                  map[string]int
@@ -739,6 +740,8 @@ func runAlgDiff(outDir string, seed int64, tier string) {
 						}
 					}
 				}
+				a.signerErrorBatch(c, round, secret, gk, cf.t, "pw", tag)
+				a.lateReaderBatches(c, round, secret, gk, cf.t, tier, tag)
 				// C01, safety with a faulty signer (last in the ceremony: the round may not recover from it): the first signer's
 				// machine result is altered on its way to its node - its partial signatures are not signatures of these payloads
 				// (a bit flipped; with several messages, the signatures swapped between them). Whatever the nodes then
